@@ -83,7 +83,10 @@ def run(ctx):
         ctx.count(core.digest([kind, r["f"]]))
 
     addrs = [b"", b"1", b"1234567", bytes(rng.getrandbits(8) for _ in range(255))]
-    texts = ["", "A", "x" * 100, "žluťoučký kůň " * 10, "中" * 200]
+    # UCS-2 texts: empty, ASCII, long, and code units whose low / high octets sit at the extremes (0x00, 0x7F, 0x80, 0xFF) in first,
+    # middle and last position
+    texts = ["", "A", "x" * 100, "žluťoučký kůň " * 10, "中" * 200, "Übung", "é", "Αθήνα", "\u0080\u00ff\u0100\u7fff\u8000\uffff",
+             "a\u0080", "\u00ffz", "\u8080\u8080", "ab\u00e9cd\u0391"]
     # ---- TMS
     for sn in range(128):
         for enc in (None, T.TMSEncoding.UCS2_LE):
